@@ -27,7 +27,7 @@ pub enum Case {
 
 pub const DEF: PropDef = PropDef {
     id: "C18",
-    rule: "Values: every value below 2^17 (quick) / 2^21 (thorough), every length-step boundary +-2 up to 10 bytes (2^7, 2^7+2^14, ...), 2^64-1 \
+    rule: "Values: every value below 2^19 (quick) / 2^23 (thorough), every length-step boundary +-2 up to 10 bytes (2^7, 2^7+2^14, ...), 2^64-1 \
 and seeded random values of all magnitudes, for both variants: vbyte_write_be/le and the generic vbyte_write::<BE|LE> must produce the reference \
 byte string (complete, ungrouped 7-bit groups per the module documentation) and return its length == byte_len_vbyte == bit_len_vbyte/8; \
 vbyte_read_be/le and vbyte_read::<BE|LE> must return the value and consume exactly the string; the generic entry points must select the variant \
@@ -39,6 +39,7 @@ a length step; distinct = distinct batch hashes (elementary_checks counts values
     assumptions: &["reference VByte (vcore::refcodes::vbyte_bytes / vbyte_value) written from the module documentation"],
     run,
     replay,
+    from_bytes: None,
 };
 
 fn check_value(v: u64, o: &mut Outcome) -> Result<(), Failure> {
@@ -203,7 +204,7 @@ fn boundary_values() -> Vec<u64> {
 
 fn run(ctx: &Ctx, env: &Env) -> Stats {
     let mut jobs: Vec<Job> = vec![];
-    let top: u64 = ctx.t(1 << 17, 1 << 21);
+    let top: u64 = ctx.t(1 << 19, 1 << 23);
     for ch in 0..16u64 {
         jobs.push(Box::new(move |ctx: &Ctx| {
             let mut part = Part::new(ctx, format!("values/{}", ch), "every value below the bound", true);
